@@ -145,12 +145,17 @@ func (ck *Check) listerWiring(rule string) {
 	// NewClient
 	{
 		fn := a.NewClient
-		ctx := ck.P.NewCtx(fn)
 		n := 0
 		for _, ctor := range []*ssa.Function{newLister, newDefault} {
-			for _, ci := range callsTo(fn, ctor) {
+			want := ctor
+			// NewClient's extended body: the map may be filled by a helper NewClient calls
+			for _, bc := range ck.bodyCalls(fn, func(ci ssa.CallInstruction) bool { return ci.Common().StaticCallee() == want }) {
+				ci, ctx := bc.Call, bc.Ctx
+				c, isCall := ci.(*ssa.Call)
+				if !isCall {
+					continue
+				}
 				n++
-				c := ci.(*ssa.Call)
 				var optsT *Term
 				for _, av := range c.Common().Args {
 					if types.Identical(av.Type(), a.TOptions) {
@@ -179,7 +184,7 @@ func (ck *Check) listerWiring(rule string) {
 					if ctor == newLister {
 						want = Not(isDef)
 					}
-					ck.entails(rule, key+"/default-choice", ci, ctx.PC(ci), want, "the default filter is used iff the group is named \"default\"")
+					ck.entails(rule, key+"/default-choice", ci, bc.PC, want, "the default filter is used iff the group is named \"default\"")
 				}
 			}
 		}
@@ -244,13 +249,12 @@ func (ck *Check) listerWiring(rule string) {
 	fLister := field(a.TState, "NodeGroupLister")
 	fOpts := field(a.TState, "Opts")
 	n := 0
-	for _, fn := range []*ssa.Function{a.NewController, a.BuildState} {
-		ctx := ck.P.NewCtx(fn)
-		for _, b := range fn.Blocks {
-			for _, in := range b.Instrs {
+	for _, root := range []*ssa.Function{a.NewController, a.BuildState} {
+		{
+			ck.bodyInstrs(root, func(ctx *Ctx, fn *ssa.Function, in ssa.Instruction) {
 				st, ok := in.(*ssa.Store)
 				if !ok || fieldOfAddr(st.Addr) != fLister {
-					continue
+					return
 				}
 				n++
 				lt := ctx.Term(st.Val)
@@ -266,6 +270,7 @@ func (ck *Check) listerWiring(rule string) {
 						}
 					}
 				}
+				optsT = spilledParamOrigin(ctx, optsT)
 				okv := false
 				if lt.Kind == "lookup" && optsT != nil {
 					k := lt.Args[1]
@@ -282,8 +287,8 @@ func (ck *Check) listerWiring(rule string) {
 						okv = kb.Key() == ob.Key() || kb.Key() == optsT.Key()
 					}
 				}
-				ck.cond(okv, rule, funcID(fn)+"/state-lister", ck.P.instrPos(st), funcID(fn), "NodeGroupState{Opts: o, NodeGroupLister: client.Listers[o.Name]} with the same o", fmt.Sprintf("lister %s, opts %v", lt, optsT), "a group's state carries another group's listers")
-			}
+				ck.cond(okv, rule, funcID(root)+"/state-lister", ck.P.instrPos(st), funcID(fn), "NodeGroupState{Opts: o, NodeGroupLister: client.Listers[o.Name]} with the same o", fmt.Sprintf("lister %s, opts %v", lt, optsT), "a group's state carries another group's listers")
+			})
 		}
 	}
 	ck.floor(rule, "NodeGroupState construction sites", n, 2)
@@ -449,4 +454,33 @@ func (ck *Check) loopContainment(rule string) {
 		}
 		ck.cond(okv, rule, key, ck.P.instrPos(e[0].Instrs[len(e[0].Instrs)-1]), funcID(fn), "inside the group loop RunOnce stops only when the cloud group is missing or on *NodeNotInNodeGroup; any other error goes on to the next group", pc.String(), "a failure in one group stops the processing of later groups: "+why)
 	}
+}
+
+// spilledParamOrigin: a load of a local that only ever holds a by-value parameter (the compiler's
+// spill of a parameter whose address is taken) stands for the argument the parameter is bound to.
+func spilledParamOrigin(ctx *Ctx, t *Term) *Term {
+	for i := 0; i < 4 && t != nil && t.Kind == "deref" && len(t.Args) == 1 && t.Args[0].Kind == "alloc"; i++ {
+		al, ok := t.Args[0].Val.(*ssa.Alloc)
+		if !ok {
+			break
+		}
+		var src ssa.Value
+		n := 0
+		for _, r := range *al.Referrers() {
+			if st, ok := r.(*ssa.Store); ok && st.Addr == ssa.Value(al) {
+				n++
+				src = st.Val
+			}
+		}
+		prm, isParam := src.(*ssa.Parameter)
+		if n != 1 || !isParam {
+			break
+		}
+		b, bound := ctx.bind[prm]
+		if !bound {
+			break
+		}
+		t = b
+	}
+	return t
 }
